@@ -110,24 +110,6 @@ theorem afterDeclEnd_found (p r : List Nat) (h : 62 ∉ p) : afterDeclEnd (p ++ 
       simp only [hb, and_false, if_false]
       exact ih hp
 
-theorem removeAllGo_not_infix (P e : List Nat) (h : ¬ P <:+: e) : removeAllGo P 0 e = e := by
-  induction e with
-  | nil => rfl
-  | cons c rest ih =>
-    have hpre : P.isPrefixOf (c :: rest) = false := by
-      cases hh : P.isPrefixOf (c :: rest) with
-      | false => rfl
-      | true =>
-        exfalso; apply h
-        exact (List.isPrefixOf_iff_prefix.mp hh).isInfix
-    have hrest : ¬ P <:+: rest := by
-      intro hi
-      apply h
-      obtain ⟨s, t, hst⟩ := hi
-      exact ⟨c :: s, t, by simp [← hst]⟩
-    rw [removeAllGo]
-    simp [hpre, ih hrest]
-
 theorem lstrip_ws (ws e : List Nat) (hws : ∀ c ∈ ws, pyIsSpace c = true) (he : ∀ c, e.head? = some c → pyIsSpace c = false) :
     (ws ++ e).dropWhile pyIsSpace = e := by
   induction ws with
